@@ -189,26 +189,52 @@ func MkBranch[T any](choice []string, ends map[string]bool, kind int) *compose.G
 
 // state handlers: identity, or (ret says so) always the same value, which the generator
 // picks among the values of the handler's declared type (any value for an any handler)
-func MkPre[I, S any](ret func() (any, bool)) compose.GraphAddNodeOpt {
-	return compose.WithStatePreHandler(func(ctx context.Context, in I, s S) (I, error) {
-		if v, ok := ret(); ok {
-			var out I
-			if v != nil {
-				out = v.(I)
+func MkPre[I, S any](ret func() (any, bool), stream bool) compose.GraphAddNodeOpt {
+	fixed := func() (I, bool) {
+		var out I
+		v, ok := ret()
+		if ok && v != nil {
+			out = v.(I)
+		}
+		return out, ok
+	}
+	if stream {
+		return compose.WithStreamStatePreHandler(func(ctx context.Context, in *schema.StreamReader[I], s S) (*schema.StreamReader[I], error) {
+			if v, ok := fixed(); ok {
+				in.Close()
+				return schema.StreamReaderFromArray([]I{v}), nil
 			}
-			return out, nil
+			return in, nil
+		})
+	}
+	return compose.WithStatePreHandler(func(ctx context.Context, in I, s S) (I, error) {
+		if v, ok := fixed(); ok {
+			return v, nil
 		}
 		return in, nil
 	})
 }
-func MkPost[O, S any](ret func() (any, bool)) compose.GraphAddNodeOpt {
-	return compose.WithStatePostHandler(func(ctx context.Context, out O, s S) (O, error) {
-		if v, ok := ret(); ok {
-			var o O
-			if v != nil {
-				o = v.(O)
+func MkPost[O, S any](ret func() (any, bool), stream bool) compose.GraphAddNodeOpt {
+	fixed := func() (O, bool) {
+		var out O
+		v, ok := ret()
+		if ok && v != nil {
+			out = v.(O)
+		}
+		return out, ok
+	}
+	if stream {
+		return compose.WithStreamStatePostHandler(func(ctx context.Context, out *schema.StreamReader[O], s S) (*schema.StreamReader[O], error) {
+			if v, ok := fixed(); ok {
+				out.Close()
+				return schema.StreamReaderFromArray([]O{v}), nil
 			}
-			return o, nil
+			return out, nil
+		})
+	}
+	return compose.WithStatePostHandler(func(ctx context.Context, out O, s S) (O, error) {
+		if v, ok := fixed(); ok {
+			return v, nil
 		}
 		return out, nil
 	})
